@@ -20,6 +20,9 @@
 // transient part being forgotten once more than 1800 s passed since the last transient addition.
 // Tolerance: the implementation may differ by 1 (float truncation at integer boundaries and the
 // code's "a transient score <= 1 is not decayed" shortcut, which leaves an excess < 1).
+// Reads are pure (differential): every transition is run again with extra int() reads issued first, with the
+// clock stepped back behind the previous event (wall time can be set back) or ahead of the coming event;
+// the scores before and after the increase must be the same as without those reads.
 // Also checked: score >= persistent sum (never negative / no wrap), and an increase raises the
 // score at that instant by at least the persistent amount added.
 package main
@@ -268,8 +271,33 @@ func transition(s score, n *node, pi int32, ei int, c *counters) node {
 	}
 	out := node{now: now, r: r, parent: pi, ev: uint8(ei)}
 	out.last, out.tr, out.p = s.VerifState()
+	// Reads are pure: the score is a function of the increments alone, so extra int() calls, issued with
+	// the clock stepped back behind the previous event (time.Now().Unix() is wall time and can be set
+	// back) or ahead of the coming one, must not change what the same event then yields. Differential:
+	// the same event on the same loaded state with and without the extra reads (tolerance 1 as above).
+	prev := t0 + int64(n.now)
+	for d, offs := range probeOffsets {
+		s.VerifLoad(n.last, n.tr, n.p)
+		for _, o := range offs {
+			s.VerifInt(prev + o)
+		}
+		b2 := uint64(s.VerifInt(unix))
+		s.VerifIncrease(e.P, e.Tr, unix)
+		a2 := uint64(s.VerifInt(unix))
+		c.comparisons++
+		if differs(b2, before) || differs(a2, after) {
+			add("read-changes-later-score."+probeNames[d], fmt.Sprintf("int() read at clock offsets %v from the previous event, then the event: score before/after the increase %d/%d; without those reads %d/%d", offs, b2, a2, before, after))
+		}
+	}
 	return out
 }
+
+var (
+	probeNames   = []string{"clock-stepped-back", "clock-ahead-then-back"}
+	probeOffsets = [][]int64{{-1, -2, -61, -1801}, {1, 61, 1801, 3700}}
+)
+
+func differs(a, b uint64) bool { return a > b+1 || b > a+1 }
 
 func main() {
 	run := ev.Start("C35", "model_checking")
@@ -469,7 +497,7 @@ func main() {
 	run.Set("observation_increase_returns_undecayed_sum_when_transient_is_zero", totalObs)
 	run.Set("note", "the value returned by increase(persistent, 0, t) is persistent + the UNDECAYED stored transient score (inherited from btcd); it is counted above as an observation, not a violation: int(t) at the same instant follows the rule")
 	run.Assume("amounts stay far below 2^31, so uint32 wrap-around of the score is out of scope")
-	run.Assume("the clock never runs backwards (dt >= 0)")
+	run.Assume("increments are applied in clock order (dt >= 0 between increases); reads are additionally issued with the clock stepped back behind the previous event and ahead of the coming one, and must not change any later score")
 	run.Assume("float64 evaluation of the closed form is exact to 1e-9, absorbed in the admissible interval")
 	run.Assume("continuing several histories from one state loads the private fields (lastUnix, transient, persistent) read from a score that reached them through real calls")
 	pprof.StopCPUProfile()
